@@ -36,8 +36,8 @@ CHECKS['C15'] = dict(
 )
 CHECKS['C17'] = dict(
     level='fault_enumeration',
-    technique='runtime monitoring: seeded up/down/garbage/silent schedules of scripted stub upstreams against the real forward.Handler with explicit health-check rounds; reference fail-over state machine with interval arithmetic for the back-off; race detector on a concurrent query/refresh phase',
-    text="288 schedules x 14 steps (quick) over M in 1..3 mains and F in 0..2 fallbacks, 11 per-step stub behaviours, back-off in {0, 450ms, 750ms, 1h}; every query is matched against the set of legitimate (main, fallback, outcome) triples of the model using the stubs' own request logs and self-identifying answers. Extended: tcp/udp/any networks with pooled-connection faults (extra message once), F=0 schedules, TC + foreign question, context-cut probes, slow calls judged by outcome, flip phase under concurrent queries, idle-pool overflow burst, production ForwardMetricsListener with a mutex-blocked-refresh watchdog.",
+    technique='runtime monitoring: seeded up/down/garbage/silent schedules of scripted stub upstreams against the real forward.Handler with explicit health-check rounds; reference fail-over state machine with interval arithmetic for the back-off; race detector on a concurrent query/refresh phase; the real binary on config.dist.yaml variants with scripted stub upstreams recording who receives each client query (back-off as written in the file)',
+    text="288 schedules x 14 steps (quick) over M in 1..3 mains and F in 0..2 fallbacks, 11 per-step stub behaviours, back-off in {0, 450ms, 750ms, 1h}; every query is matched against the set of legitimate (main, fallback, outcome) triples of the model using the stubs' own request logs and self-identifying answers. Extended: tcp/udp/any networks with pooled-connection faults (extra message once), F=0 schedules, TC + foreign question, context-cut probes, slow calls judged by outcome, flip phase under concurrent queries, idle-pool overflow burst, production ForwardMetricsListener with a mutex-blocked-refresh watchdog; binary phase: healthcheck.interval 1s / backoff_duration 60s fail-recover history, no client query at a main stub during the back-off (control: backoff 1s returns).",
     note="Trusted: the stubs' logs; back-off boundary cases are counted as ambiguous, never judged; a SERVFAIL reply from a main is relayed (statement), not failed over.",
     ref='2/C17',
 )
